@@ -1076,6 +1076,7 @@ func c12R7(p *engine.Prog, r *engine.Report) {
 	}
 	c12R8(p, r)
 	c12R10(p, r)
+	c12R11(p, r)
 }
 
 func itoa(i int64) string { return strconv.FormatInt(i, 10) }
@@ -1196,4 +1197,52 @@ func c12R10(p *engine.Prog, r *engine.Report) {
 	if scanned < 2000 {
 		r.Und("C12-R10", "repo|scan size", "", "only "+itoa(int64(scanned))+" functions scanned")
 	}
+}
+
+// ---------------------------------------------------------------- R11
+// The certificate of a block bundle received from a peer is optional on the wire (absent -> nil).
+// Every place that stores such a certificate (Blockchain.WriteCertificate -> BlockCert.ToBytes
+// dereferences it) does so behind a presence test of that very certificate — the sibling call sites
+// in full sync and fast sync do; a site without the test crashes on a bundle sent without one.
+func c12R11(p *engine.Prog, r *engine.Report) {
+	n := 0
+	for _, f := range p.AllFuncs() {
+		if pk := engine.FuncPkg(f); pk == nil || !engine.IsRepoPkg(pk) || f.Synthetic != "" || f.Blocks == nil || isTestish(p.Pos(f.Pos())) {
+			continue
+		}
+		for _, c := range engine.Calls(f) {
+			if !engine.CallIs(c, "blockchain.Blockchain.WriteCertificate") {
+				continue
+			}
+			args := engine.CallArgs(c)
+			cert := engine.Unwrap(args[2])
+			ld, isLoad := cert.(*ssa.UnOp)
+			if !isLoad || ld.Op != token.MUL {
+				continue // built locally (cert.Compress()): never nil
+			}
+			if _, fld, okF := engine.FieldOf(ld.X); !okF || fld != "Cert" {
+				continue
+			}
+			n++
+			path := renderVal(cert, 0)
+			g := guardsWhere(f, func(cond ssa.Value) (bool, bool, string) {
+				cnd, neg := stripNot(cond)
+				if cc, ok := cnd.(*ssa.Call); ok && engine.CallNameIs(cc, "Empty") {
+					if a := engine.CallArgs(cc); len(a) > 0 && renderVal(a[0], 0) == path {
+						return true, neg, "!Cert.Empty()"
+					}
+				}
+				if x, y, isEq, ok := eqCond(cnd); ok {
+					for _, pr := range [][2]ssa.Value{{x, y}, {y, x}} {
+						if k, isK := pr[1].(*ssa.Const); isK && k.IsNil() && renderVal(pr[0], 0) == path {
+							return true, isEq == neg, "Cert != nil"
+						}
+					}
+				}
+				return false, false, ""
+			})
+			r.Check(len(g) > 0 && engine.OnlyThroughPass(f, c.Block(), g), "C12-R11", uniq(r, engine.RelName(f)+"|a received certificate is stored only if present"), p.InstrPos(c), "behind !Cert.Empty() / Cert != nil of the same bundle", "the optional certificate of a received block bundle is stored without a presence test: WriteCertificate encodes it (nil dereference in BlockCert.ToProto) — a peer that serves a valid fork and leaves out a certificate in the middle crashes the node while it is switching forks")
+		}
+	}
+	r.Floor("C12-R11", 3, "fork resolver, full sync, fast sync")
 }
